@@ -47,7 +47,7 @@ func TestC02Rapid(t *testing.T) {
 			st := w.opCreate(rt, true)
 			if st != nil && st.Res.OK() {
 				for _, d := range w.denoms {
-					w.e.Fund(ophosttypes.BridgeAddress(st.Bridge), coinOf(d, 1_000_000_000))
+					w.e.Fund(escrowAddr(st.Bridge), coinOf(d, 1_000_000_000))
 					w.bridges[st.Bridge].addLedger(d, math.NewInt(1_000_000_000))
 				}
 			}
@@ -61,12 +61,21 @@ func TestC02Rapid(t *testing.T) {
 		paidHist := map[string]*hist{}
 		deletions := 0
 		shape := ""
+		bulkAt := -1
+		if rapid.IntRange(0, 39).Draw(rt, "bulk") == 0 {
+			bulkAt = rapid.IntRange(0, 20).Draw(rt, "bulkAt")
+		}
 		repeatSteps(rt, 50, func(i int) {
 			paidBefore := map[string]bool{}
 			for _, id := range w.ids {
 				for k, v := range w.bridges[id].Paid {
 					paidBefore[fmt.Sprintf("%d|%s", id, k)] = v
 				}
+			}
+			if bulkAt == i && len(w.ids) > 0 {
+				// a long-lived bridge: far more than a page of paid withdrawals
+				c02Bulk(rt, w, w.bridges[w.ids[0]], offered)
+				c.Class("bridge-with-more-than-100-paid-withdrawals")
 			}
 			if rapid.IntRange(0, 24).Draw(rt, "roundtrip") == 0 {
 				// the chain is exported and restarted from its genesis in the middle of the history:
@@ -84,12 +93,15 @@ func TestC02Rapid(t *testing.T) {
 				tu := *st.Tuple
 				offered[tu.key()] = tu
 				pk := fmt.Sprintf("%d|%s", tu.Bridge, tu.key())
+				if st.Res.OK() && st.Expect == "respell" {
+					rt.Fatalf("C02 violated at step %d: a claim naming the recipient in another spelling (%s) was paid: it is not the committed withdrawal, and the committed one can be paid as well\nhistory:\n%s", i, tu.To, w.history())
+				}
 				if st.Res.OK() {
 					if paidBefore[pk] {
 						rt.Fatalf("C02 violated at step %d: withdrawal %s was paid a second time (index %d)\nhistory:\n%s", i, tu.key(), st.OutIndex, w.history())
 					}
 					post := w.balances()
-					esc, to := ophosttypes.BridgeAddress(tu.Bridge).String(), tu.To
+					esc, to := escrowAddr(tu.Bridge).String(), tu.To
 					coin := sdk.NewCoin(tu.Denom, math.NewIntFromUint64(tu.Amount))
 					pe, _ := parseCoins(pre[esc])
 					qe, _ := parseCoins(post[esc])
@@ -148,7 +160,7 @@ func TestC02Exhaustive(t *testing.T) {
 	if r := e.Deliver(ophosttypes.NewMsgCreateBridge(prop.Str, henv.DefaultBridgeConfig(prop.Str, chal.Str, c02Period))); !r.OK() {
 		t.Fatal(r.Err)
 	}
-	e.Fund(ophosttypes.BridgeAddress(1), coinOf("uinit", 1_000_000))
+	e.Fund(escrowAddr(1), coinOf("uinit", 1_000_000))
 	tuples := []wd{
 		{Bridge: 1, Seq: 1, From: "a", To: rcpt.Str, Denom: "uinit", Amount: 5},
 		{Bridge: 1, Seq: 2, From: "b", To: rcpt.Str, Denom: "uinit", Amount: 7},
@@ -264,7 +276,7 @@ func TestC02Exhaustive(t *testing.T) {
 					caseFail(t, npath, "Claimed(%c) = %v (err %v), paid = %v", 'A'+i, res.GetClaimed(), err, npaid[i])
 				}
 			}
-			if got := e2.Balance(ophosttypes.BridgeAddress(1), "uinit"); !got.Equal(math.NewInt(nbal)) {
+			if got := e2.Balance(escrowAddr(1), "uinit"); !got.Equal(math.NewInt(nbal)) {
 				caseFail(t, npath, "escrow %s, expected %d", got, nbal)
 			}
 			count++
@@ -286,4 +298,45 @@ func TestC02Exhaustive(t *testing.T) {
 	}
 	dfs(e.Ctx, nil, [3]bool{}, 1_000_000, "", 0, false)
 	rec.ExhaustiveSubspace(fmt.Sprintf("all schedules of length %d over {propose tree [A,B,C], propose tree [C,A], delete last, advance one period, claim X against index k for X in {A,B,C}, k in {1,2}} with a two-sided reference verdict for every claim", depth))
+}
+
+// c02Bulk proposes one output of 110-160 fresh withdrawals on bridge b, lets it become final and
+// pays every one of them.
+func c02Bulk(rt *rapid.T, w *l1World, b *mBridge, offered map[string]wd) {
+	n := rapid.IntRange(110, 160).Draw(rt, "bulkn")
+	var ts []wd
+	for i := 0; i < n; i++ {
+		t := wd{Bridge: b.ID, Seq: b.NextWdSeq, From: "bulk", To: w.users[i%len(w.users)].Str, Denom: "uinit", Amount: uint64(1 + i%7)}
+		b.NextWdSeq++
+		b.Pool = append(b.Pool, t)
+		ts = append(ts, t)
+	}
+	o := buildOutput(ts, 0, ref32(9))
+	var prev uint64
+	if len(b.Outputs) > 0 {
+		prev = b.Outputs[len(b.Outputs)-1].L2Block
+	}
+	if prev == ^uint64(0) {
+		return
+	}
+	idx := uint64(len(b.Outputs) + 1)
+	r := w.e.Deliver(ophosttypes.NewMsgProposeOutput(b.Proposer, b.ID, idx, prev+1, o.Root[:]))
+	if !r.OK() {
+		return
+	}
+	o.Index, o.L2Block, o.At, o.Height = idx, prev+1, w.e.Ctx.BlockTime(), w.e.Ctx.BlockHeight()
+	b.Outputs = append(b.Outputs, o)
+	w.e.AdvanceTo(o.At.Add(b.Period))
+	w.e.Fund(escrowAddr(b.ID), coinOf("uinit", 2000))
+	b.addLedger("uinit", math.NewInt(2000))
+	for i, t := range ts {
+		if res := w.e.Deliver(claimMsg(w.users[0].Str, t, o, idx, i)); res.OK() {
+			b.Paid[t.key()] = true
+			b.addLedger("uinit", math.NewIntFromUint64(t.Amount).Neg())
+			offered[t.key()] = t
+		} else {
+			rt.Fatalf("C02 setup: bulk claim %d rejected: %v", i, res.Err)
+		}
+	}
+	w.logf("bulk: %d withdrawals paid on bridge %d through output %d", n, b.ID, idx)
 }
